@@ -263,16 +263,28 @@ def fp_steps_ob(clsname='BrownianStock', tier='quick'):
         grid = [1 / 250, 1 / 365, 1 / 252, 1 / 12, 1 / 52, 0.1, 0.01, 0.05, 1 / 360]
         kmax = 400 if tier == 'quick' else 4000
         try:
+            failing = []
             for dt in grid:
-                for k in range(1, kmax + 1):
-                    M = k * dt
-                    got = fpx.native(node, {'time_horizon': M, 'self.dt': dt})
+                for k in range(1, 401):          # the signature always uses k <= 400 so that it is tier-independent
+                    got = fpx.native(node, {'time_horizon': k * dt, 'self.dt': dt})
+                    if got != k + 1:
+                        failing.append((repr(dt), k, got))
+            if failing:
+                import hashlib
+                sig = '%d:%s' % (len(failing), hashlib.sha1(repr(failing).encode()).hexdigest()[:12])
+                dt0, k0, got0 = failing[0]
+                rr = real_exec(STEPS_REPLAY, {'k': k0, 'dt': float(dt0), 'cls': clsname})
+                ok = rr.get('ok') and rr['result']['got'] != rr['result']['ref']
+                return Verdict('refuted', 'native IEEE-double enumeration of the source expression', time.time() - t0,
+                               '%s: %d of %d (dt, k<=400) pairs miscount, first: maturity = %d*dt, dt = %s gives %s time points, expected %d' % (text, len(failing), 400 * len(grid), k0, dt0, got0, k0 + 1),
+                               witness={'k': k0, 'dt': float(dt0), 'points': got0, 'failing_pairs': len(failing), 'signature': sig}, replay={'real': rr, 'confirmed': bool(ok)}, sample=sample)
+            for dt in grid:
+                for k in range(401, kmax + 1):
+                    got = fpx.native(node, {'time_horizon': k * dt, 'self.dt': dt})
                     if got != k + 1:
                         rr = real_exec(STEPS_REPLAY, {'k': k, 'dt': dt, 'cls': clsname})
-                        ok = rr.get('ok') and rr['result']['got'] != rr['result']['ref']
-                        return Verdict('refuted', 'native IEEE-double enumeration of the source expression', time.time() - t0,
-                                       '%s with maturity = %d*dt, dt = %r gives %s time points, expected %d' % (text, k, dt, got, k + 1),
-                                       witness={'k': k, 'dt': dt, 'points': got}, replay={'real': rr, 'confirmed': bool(ok)}, sample=sample)
+                        return Verdict('refuted', 'native IEEE-double enumeration of the source expression', time.time() - t0, 'k=%d dt=%r gives %s points' % (k, dt, got),
+                                       witness={'k': k, 'dt': dt, 'points': got, 'signature': 'beyond-400'}, replay={'real': rr, 'confirmed': bool(rr.get('ok') and rr['result']['got'] != rr['result']['ref'])}, sample=sample)
         except NotImplementedError as e:
             return Verdict('unknown', 'engine', time.time() - t0, str(e), sample=sample)
         import z3
